@@ -16,6 +16,7 @@ exact for 0/90/180/270 degrees and for Pythagorean angles).
 -/
 import FlexModel.Geo.AreaLemmas
 import FlexModel.Geo.AreaSnap
+import FlexModel.Geo.AreaHist
 import Generated.Mib
 import Generated.AreaFacts
 
@@ -492,6 +493,148 @@ theorem torn_ego_witness :
     let h : Nat → SPV := fun t => if t = 0 then ⟨true, 0, 150⟩ else ⟨true, 150, 0⟩
     deliverSeen F (fun i => if i = 2 then 1 else 0) h id = true ∧
     decide (0 ≤ F (h 0).lat (h 0).lon) = false ∧ decide (0 ≤ F (h 1).lat (h 1).lon) = false := by
+  decide +kernel
+
+/-! ## Round 5: the STATE the decisions read, as a function of the history that produced it
+(`FlexModel/Geo/AreaHist.lean`; facts `Generated.AreaFacts.fArgOrigins` regenerated from router.py) -/
+
+/-- in both Annex D evaluations of the source (`gn_forwarding_algorithm_selection` for GBC, step 10 of
+`gn_data_indicate_gac`) the first F is evaluated at the ego vector and the second at the vector of a LOCATION TABLE entry -/
+def senderFromTable (l : List (String × List String)) : Bool :=
+  l == [("gn_forwarding_algorithm_selection", ["ego", "locT"]), ("gn_data_indicate_gac", ["ego", "locT"])]
+
+/-- **Annex D's PV_SE is the location table's vector in the source.**  Taking it from the header of the packet being
+handled (seeded change C07-m8: `so_pv = gbc_extended_header.so_pv`) re-opens this obligation. -/
+theorem annexD_sender_vector_from_location_table_of_source :
+    senderFromTable Generated.AreaFacts.fArgOrigins = true := by decide
+
+/-- **Annex D is decided on the NEWEST position vector received from the sender, in whatever order the receptions
+arrived**: after the receptions `h` of station `pk.so` (beacons, SHBs, other packets; oldest reception first) and the
+packet itself with header vector `hp`, the location table holds a vector `c` that was received, that no received vector
+is newer than (annex C.2), and the transmissions of the forwarder are those of the Annex D table on
+(ego inside or at border, PAI of `c`, `c` inside or at border) — for every glue, area, ego position and history. -/
+theorem annexD_on_table_vector (g : Glue) (ego : Pos) (mx : Nat) (pk : GeoPkt) (h : List StPV) (hp : StPV)
+    (ho : oversize pk.area.shape pk.area.a pk.area.b mx = false) (hr : 1 < pk.rhl) :
+    ∃ c, locAfter (h ++ [hp]) = some c ∧ c ∈ h ++ [hp] ∧ (∀ q ∈ h ++ [hp], q.tst ≤ c.tst) ∧
+      recvGBCpkt g .sender (stationAfter ego mx pk.so (h ++ [hp])) pk pk.so =
+        (if decide (0 ≤ fAt g pk.area ego) then [Action.deliver] else []) ++
+          fwdActs (annexDTable (decide (0 ≤ fAt g pk.area ego)) c.pai (decide (0 ≤ fAt g pk.area c.pos))) ∧
+      recvGACpkt g .sender (stationAfter ego mx pk.so (h ++ [hp])) pk pk.so =
+        (if decide (0 ≤ fAt g pk.area ego) then [Action.deliver]
+         else fwdActs (annexDTable false c.pai (decide (0 ≤ fAt g pk.area c.pos)))) := by
+  obtain ⟨c, hc⟩ := locAfter_some_of_mem (h ++ [hp]) hp (by simp)
+  obtain ⟨hm, hmax⟩ := locAfter_mem_max _ c hc
+  refine ⟨c, hc, hm, hmax, ?_⟩
+  have key := annexD_selection_sender g (stationAfter ego mx pk.so (h ++ [hp])) pk pk.so ho rfl hr
+  have e : (stationAfter ego mx pk.so (h ++ [hp])).locT pk.so = some ⟨c.pos, c.pai⟩ := by
+    simp [stationAfter, hc, StPV.toLocTE]
+  have e2 : (stationAfter ego mx pk.so (h ++ [hp])).ego = ego := rfl
+  simp only [e, sePosValid, seInside, e2] at key
+  simpa using key
+
+/-- the same for the place the SOURCE TEXT takes PV_SE from (regenerated fact) -/
+theorem annexD_on_table_vector_of_source (ego : Pos) (mx so : Nat) (h : List StPV) (hp : StPV) :
+    stationAt (senderFromTable Generated.AreaFacts.fArgOrigins) ego mx so h hp = stationAfter ego mx so (h ++ [hp]) := by
+  have hf : senderFromTable Generated.AreaFacts.fArgOrigins = true := by decide
+  simp [stationAt, hf]
+
+/-- in-order reception (the packet is strictly newer than everything received from its source before): header vector
+and table vector are the same thing … -/
+theorem header_vector_partial (ego : Pos) (mx so : Nat) (h : List StPV) (hp : StPV) (hn : ∀ q ∈ h, q.tst < hp.tst) :
+    stationAt false ego mx so h hp = stationAt true ego mx so h hp := by
+  simp [stationAt, stationAfter, stationHeader, locAfter_packet_newest h hp hn]
+
+/-- … and **out of order they are not (C07-m8, witness)**: circle r = 200 m around the origin of a flat map, forwarder
+1500 m west (outside).  A beacon of station 7 with timestamp 2000 ms from 300 m east (outside), then a delayed GAC
+packet station 7 generated at 0 ms at the centre (PAI): the table says "sender outside" → non-area forwarding, the
+header says "inside" → the packet is dropped.  With the roles swapped the header re-broadcasts a packet that Annex D
+discards.  (non-vacuity of `annexD_on_table_vector`: histories whose last element is not the newest.) -/
+theorem header_vector_witness :
+    let A : GeoArea := ⟨.circle, 200, 0, ⟨0, 0⟩, 0⟩
+    let pk : GeoPkt := ⟨A, 5, 7⟩
+    let ego : Pos := ⟨0, -1500⟩
+    let newOut : StPV := ⟨2000, ⟨0, 300⟩, true⟩
+    let oldIn : StPV := ⟨0, ⟨0, 0⟩, true⟩
+    let newIn : StPV := ⟨2000, ⟨0, 0⟩, true⟩
+    let oldOut : StPV := ⟨0, ⟨0, 300⟩, true⟩
+    recvGACpkt flatGlue .sender (stationAt true ego 10 7 [newOut] oldIn) pk 7 = [.forwardNonArea] ∧
+    recvGACpkt flatGlue .sender (stationAt false ego 10 7 [newOut] oldIn) pk 7 = [] ∧
+    recvGACpkt flatGlue .sender (stationAt true ego 10 7 [newIn] oldOut) pk 7 = [] ∧
+    recvGACpkt flatGlue .sender (stationAt false ego 10 7 [newIn] oldOut) pk 7 = [.forwardNonArea] ∧
+    locAfter [newOut, oldIn] = some newOut := by
+  decide +kernel
+
+/-- **delivery after any history of TPV reports depends only on the last report that carries a position fix**: whatever
+was reported before it (`pre`), and however many reports without `lat`/`lon` (no fix: mode 0/1) follow it (`suf`), a
+GBC / GAC packet is delivered exactly when the position `p` of that report lies inside or on the border of the area -/
+theorem delivery_after_tpv_history (g : Glue) (hu : g.UnitCS) (k : SeKey) (st : Station) (pk : GeoPkt) (sender : Nat)
+    (ha : 0 < pk.area.a) (hb : pk.area.shape = .circle ∨ 0 < pk.area.b)
+    (ego0 : Pos) (pre suf : List Tpv) (r : Tpv) (p : Pos) (hr : r.fix = some p) (hs : ∀ q ∈ suf, q.fix = none) :
+    (Action.deliver ∈ recvGBCpkt g k { st with ego := egoAfter false ego0 (pre ++ r :: suf) } pk sender ↔
+      insideArea g pk.area p) ∧
+    (Action.deliver ∈ recvGACpkt g k { st with ego := egoAfter false ego0 (pre ++ r :: suf) } pk sender ↔
+      insideArea g pk.area p) := by
+  have e := egoAfter_last_fix ego0 pre suf r p hr hs
+  have key := packet_deliver_iff_inside g hu k { st with ego := egoAfter false ego0 (pre ++ r :: suf) } pk sender ha hb
+  simpa [e] using key
+
+/-- no report with a fix at all (outage from the start): the station stays where it was -/
+theorem delivery_without_any_fix (g : Glue) (hu : g.UnitCS) (k : SeKey) (st : Station) (pk : GeoPkt) (sender : Nat)
+    (ha : 0 < pk.area.a) (hb : pk.area.shape = .circle ∨ 0 < pk.area.b) (nm : Bool)
+    (h : List Tpv) (hs : ∀ q ∈ h, q.fix = none) :
+    (Action.deliver ∈ recvGBCpkt g k { st with ego := egoAfter nm st.ego h } pk sender ↔ insideArea g pk.area st.ego) ∧
+    (Action.deliver ∈ recvGACpkt g k { st with ego := egoAfter nm st.ego h } pk sender ↔ insideArea g pk.area st.ego) := by
+  have e := egoAfter_no_fix nm st.ego h hs
+  have key := packet_deliver_iff_inside g hu k { st with ego := egoAfter nm st.ego h } pk sender ha hb
+  simpa [e] using key
+
+/-- non-vacuity: fix 50 m north of the centre of a 100 m circle, fix 500 m north WITHOUT speed and track, then two
+reports without position (one of them with a latitude only): the station is 500 m north, not delivered; had the last
+fix been the first one, delivered -/
+example :
+    let A : GeoArea := ⟨.circle, 100, 0, ⟨0, 0⟩, 0⟩
+    let pk : GeoPkt := ⟨A, 5, 7⟩
+    let st : Station := ⟨⟨0, 0⟩, 10, fun _ => false, fun _ => none⟩
+    let fixIn : Tpv := ⟨some 50, some 0, true, true⟩
+    let fixOut : Tpv := ⟨some 500, some 0, false, false⟩
+    let noFix : Tpv := ⟨none, none, false, false⟩
+    let latOnly : Tpv := ⟨some 0, none, true, true⟩
+    egoAfter false st.ego [fixIn, fixOut, noFix, latOnly] = ⟨500, 0⟩ ∧
+    recvGACpkt flatGlue .source { st with ego := egoAfter false st.ego [fixIn, fixOut, noFix, latOnly] } pk 7 = [.forwardNonArea] ∧
+    recvGACpkt flatGlue .source { st with ego := egoAfter false st.ego [fixIn, noFix, latOnly] } pk 7 = [.deliver] := by
+  decide +kernel
+
+/-- **the code before fix C07-F4, partial**: it agrees on histories in which every report with a position also carries
+`speed` and `track` … -/
+theorem tpv_speed_track_required_partial (ego0 : Pos) (h : List Tpv)
+    (hm : ∀ q ∈ h, q.fix ≠ none → (q.speed && q.track) = true) : egoAfter true ego0 h = egoAfter false ego0 h :=
+  egoAfter_needMotion_partial ego0 h hm
+
+/-- … **witness (defect C07-F4)**: a report WITH a position but without `track` (gpsd: no course at standstill / NMEA
+receiver) was rejected with KeyError: the station, now 500 m from the centre, is still addressed where it was -/
+theorem tpv_speed_track_required_witness :
+    let A : GeoArea := ⟨.circle, 100, 0, ⟨0, 0⟩, 0⟩
+    let pk : GeoPkt := ⟨A, 5, 7⟩
+    let st : Station := ⟨⟨0, 0⟩, 10, fun _ => false, fun _ => none⟩
+    let h : List Tpv := [⟨some 50, some 0, true, true⟩, ⟨some 500, some 0, true, false⟩]
+    egoAfter true st.ego h = ⟨50, 0⟩ ∧ egoAfter false st.ego h = ⟨500, 0⟩ ∧
+    recvGBCpkt flatGlue .source { st with ego := egoAfter true st.ego h } pk 7 = [.deliver, .forwardArea] ∧
+    recvGBCpkt flatGlue .source { st with ego := egoAfter false st.ego h } pk 7 = [.forwardNonArea] := by
+  decide +kernel
+
+/-- **a report without fix read as 0.0 (C07-m9, witness)**: fix at (4138, 217), then a report without position: the
+station is moved to 0 N 0 E — a packet for the circle around its real position is no longer delivered, a packet for the
+circle around (0, 0) is -/
+theorem no_fix_report_moves_station_witness :
+    let here : GeoArea := ⟨.circle, 100, 0, ⟨4138, 217⟩, 0⟩
+    let origin : GeoArea := ⟨.circle, 100, 0, ⟨0, 0⟩, 0⟩
+    let st : Station := ⟨⟨0, 0⟩, 10, fun _ => false, fun _ => none⟩
+    let h : List Tpv := [⟨some 4138, some 217, true, true⟩, ⟨none, none, false, false⟩]
+    h.foldl egoRefreshZero st.ego = ⟨0, 0⟩ ∧ egoAfter false st.ego h = ⟨4138, 217⟩ ∧
+    recvGACpkt flatGlue .source { st with ego := h.foldl egoRefreshZero st.ego } ⟨here, 5, 7⟩ 7 = [.forwardNonArea] ∧
+    recvGACpkt flatGlue .source { st with ego := h.foldl egoRefreshZero st.ego } ⟨origin, 5, 7⟩ 7 = [.deliver] ∧
+    recvGACpkt flatGlue .source { st with ego := egoAfter false st.ego h } ⟨here, 5, 7⟩ 7 = [.deliver] ∧
+    recvGACpkt flatGlue .source { st with ego := egoAfter false st.ego h } ⟨origin, 5, 7⟩ 7 = [.forwardNonArea] := by
   decide +kernel
 
 /-! ## Model facts (restate definitions; not part of the claimed list) -/
